@@ -1,6 +1,7 @@
 #!/bin/sh
-# Offline setup after a fresh restore: regenerate tables, build the Lean project (all property
-# modules + driver) and the Go harness. Idempotent.
+# Offline setup after a fresh restore: regenerate tables, build the Lean project (driver + all property modules) and
+# the Go harness. Idempotent. The driver and the harness must build (exit 1 otherwise); a property module that does
+# not build is reported here and again, as a broken proof obligation, by that property's own check.
 set -e
 cd "$(dirname "$0")"
 python3 - <<'PY'
@@ -11,11 +12,22 @@ gens = sorted({g for p in props.PROPS.values() for g in p.gen})
 with core.Lock():
     ok, msg = core.regenerate(gens)
     print("regenerate", gens, ok, msg)
-    mods = sorted({p.lean_module for p in props.PROPS.values() if p.lean_module})
-    ok, out = core.lake_build(["driver"] + mods)
-    print(out[-3000:])
+    ok, out = core.lake_build(["driver"])
+    print(out[-2000:])
     if not ok:
+        print("setup: the Lean driver does not build")
         sys.exit(1)
+    mods = sorted({p.lean_module for p in props.PROPS.values() if p.lean_module})
+    ok, out = core.lake_build(mods)
+    if not ok:
+        # build one by one so that every module that can be built is built
+        bad = []
+        for m in mods:
+            ok1, out1 = core.lake_build([m])
+            if not ok1:
+                bad.append(m)
+                print(out1[-1500:])
+        print("setup: property modules that do not build (their checks will report it):", bad)
     ok, se = core.go_build("corr", os.path.join(core.BIN, "corr"))
     print("go build corr", ok, se[-2000:])
     if not ok:
